@@ -587,23 +587,26 @@ func (u *Upstream) ackOrDone(ctx context.Context) <-chan *message.UpstreamChunkA
 }
 
 func (u *Upstream) readAckLoop(ctx context.Context) {
-	go u.readResultLoop(ctx)
-	go u.readAliasLoop(ctx)
+	// this run's channels: resume replaces the fields for the next run, and the two loops started here may
+	// get going only after that
+	u.mu.RLock()
+	aliasCh, resCh := u.aliasCh, u.resCh
+	u.mu.RUnlock()
+	go u.readResultLoop(ctx, resCh)
+	go u.readAliasLoop(ctx, aliasCh)
 
 	defer func() {
-		u.mu.Lock()
-		close(u.aliasCh)
-		close(u.resCh)
-		u.mu.Unlock()
+		close(aliasCh)
+		close(resCh)
 	}()
 
 	for ack := range u.ackOrDone(ctx) {
-		u.aliasCh <- ack.DataIDAliases
-		u.resCh <- ack.Results
+		aliasCh <- ack.DataIDAliases
+		resCh <- ack.Results
 	}
 }
 
-func (u *Upstream) readResultLoop(ctx context.Context) {
+func (u *Upstream) readResultLoop(ctx context.Context, resCh <-chan []*message.UpstreamChunkResult) {
 	defer func() {
 		u.mu.Lock()
 		defer u.mu.Unlock()
@@ -612,7 +615,7 @@ func (u *Upstream) readResultLoop(ctx context.Context) {
 		}
 		u.upstreamChunkResultChs = make(map[uint32]chan *message.UpstreamChunkResult)
 	}()
-	for v := range u.resCh {
+	for v := range resCh {
 		for _, vv := range v {
 			vv := vv
 
@@ -634,11 +637,8 @@ func (u *Upstream) readResultLoop(ctx context.Context) {
 	}
 }
 
-func (u *Upstream) readAliasLoop(ctx context.Context) {
+func (u *Upstream) readAliasLoop(ctx context.Context, aliasCh <-chan map[uint32]*message.DataID) {
 	for {
-		u.mu.RLock()
-		aliasCh := u.aliasCh
-		u.mu.RUnlock()
 		if aliasCh == nil {
 			return
 		}
